@@ -96,5 +96,12 @@ META["C03"] = dict(
     technique="Lean 4 invariant proof over hand model + end-to-end differential correspondence over loopback QUIC",
 )
 
+META["C04"] = dict(
+    text="Lean 4 invariant proof over a model of the state shared by a Requestor and its clones (id counter, pending-request map, per-call timeout, reply reader) against an adversarial reply stream: c04_own_reply (every delivered reply carries exactly the id of the call that got it; a reply goes to at most one call and a call gets at most one reply), c04_late_reply_dropped, c04_timeout, c04_ids_distinct (< 2^32 calls); composed with C02 for separate streams; tied to the code by running real requestors against a scripted raw replier over loopback QUIC",
+    design_ref="DESIGN.md section 6, C04",
+    note="trusts tokio oneshot/timeout and the transport; cross-stream isolation is C02",
+    technique="Lean 4 invariant proof over hand model + end-to-end differential correspondence",
+)
+
 _PENDING = "not built yet in this session; planned at proof level (DESIGN.md section 6) — will be claimed as soon as its first theorem and correspondence suite exist"
 NOT_APPLICABLE = {f"C{n:02d}": _PENDING for n in range(1, 18)}
